@@ -189,7 +189,10 @@ class Ctx:
 
 
 def describe_exc(e):
-    """Stable description of an exception (no addresses)."""
+    """Stable description of an exception (no addresses).  Statuses without an exception object (hang, budget,
+    abort) pass None: that must describe itself, not crash the harness."""
+    if not isinstance(e, BaseException):
+        return "no result (the call did not return: watchdog or decision budget)" if e is None else f"returned {type(e).__name__}"
     tb = traceback.extract_tb(e.__traceback__)
     where = ""
     for fr in reversed(tb):
@@ -454,7 +457,8 @@ class Engine:
                     c2 = execute(self.check, sc, rs, timeout=3 * getattr(self.check, "RUN_TIMEOUT", 60.0))
                     if _matching(c2, clause, finding) is not None:
                         kept.append((idx, d))
-                self.extra["timeouts_not_reproduced"] = self.extra.get("timeouts_not_reproduced", 0) + len(items[:5]) - len(kept)
+                        break           # one confirmed reproduction is enough; each costs the full time limit
+                self.extra["timeouts_not_reproduced"] = self.extra.get("timeouts_not_reproduced", 0) + (0 if kept else len(items[:5]))
                 if not kept:
                     continue
                 items = kept
